@@ -172,7 +172,7 @@ def run(cx):
                    "add/tb-arg3", f"tie-break arg3 (new origin) is {show(a3)}", b.path, b.loc(c.bb))
         # consequences of true/false are checked as words in C04.2a; re-evaluate the edge here
         from . import c04
-        sub = cx.__class__("C05", prog, cx.tier, cx.config, cx.tree)
+        sub = cx.__class__("C05", prog, cx.tier, cx.config, cx.tree, repo=cx.repo)
         c04.run(sub)
         w = [x for x in sub.obs if x.oid == "C04.2a"]
         ob.require(w and not w[0].violations, "add/true-replaces-false-keeps",
